@@ -168,9 +168,9 @@ CLASSIFIERS = {}
 
 
 # ----------------------------------------------------------------------------- predicates
-def check_point(p, V, eps, what):
-    """property predicate on a returned ("converged") point: feasibility, KKT (scaled tolerance), objective equal to
-    the constructed optimum and to scipy's NNLS.  Returns None or a message."""
+def check_point(p, V, eps, what, tk=1e-6, to=1e-6):
+    """property predicate on a returned ("converged") point: feasibility, KKT (scaled tolerance tk), objective equal
+    (relative tolerance to) to the constructed optimum and to scipy's NNLS.  Returns None or a message."""
     V = np.asarray(V, dtype=float)
     G, B, l1, l2, X = p["G"], p["B"], p["l1"], p["l2"], p["X"]
     if V.shape != B.shape:
@@ -181,13 +181,13 @@ def check_point(p, V, eps, what):
     scale = 1 + float(np.max(np.abs(B))) + float(np.max(np.abs(V)))
     if mv < 0:
         return f"{what}: returned solution below the bound: min(V - eps) = {mv:.3g}"
-    if mg < -1e-6 * scale:
+    if mg < -tk * scale:
         return f"{what}: KKT violated: min gradient {mg:.3g} < 0 (scale {scale:.3g})"
-    if mc > 1e-6 * scale * scale:
+    if mc > tk * scale * scale:
         return f"{what}: KKT violated: complementarity max|(V-eps)*g| = {mc:.3g}"
     if eps <= 1e-8:
         f, fs = objective(G, B, V, l1, l2), objective(G, B, X, l1, l2)
-        tolf = 1e-6 * (1 + abs(fs)) + 4 * eps * float(np.sum(np.abs(p["MU"]))) + eps
+        tolf = to * (1 + abs(fs)) + 4 * eps * float(np.sum(np.abs(p["MU"]))) + eps
         if abs(f - fs) > tolf:
             return f"{what}: objective {f!r} differs from the constructed optimum {fs!r}"
         fr = objective(G, B, p["Xs"], l1, l2)
@@ -205,8 +205,8 @@ def inputs_json(p, **kw):
 # ----------------------------------------------------------------------------- case generation
 def tiers(tier):
     if tier == "quick":
-        return dict(nprob=34, npass=40, nfista=14, nas=60, nadmm=10, aswarm=60)
-    return dict(nprob=260, npass=420, nfista=120, nas=700, nadmm=60, aswarm=900)
+        return dict(nprob=30, npass=40, nfista=16, nas=50, nadmm=10, aswarm=80)
+    return dict(nprob=240, npass=400, nfista=140, nas=600, nadmm=60, aswarm=1500)
 
 
 def dyadic_start(rng, r, n, kind):
@@ -249,6 +249,15 @@ def impl_call(chk, fn, *a, timeout=120, **k):
     return st, v
 
 
+def fista_betas(K):
+    """(momentum_old - 1) / momentum for the first K iterations: data-independent, defined with sqrt (recorded data of the model)"""
+    betas, mo = [], 1.0
+    for _ in range(K):
+        m = (1 + math.sqrt(1 + 4 * mo ** 2)) / 2
+        betas.append((mo - 1) / m); mo = m
+    return betas
+
+
 def run(chk):
     rng = random.Random(chk.seed)
     chk.build_proofs()
@@ -281,21 +290,26 @@ def run(chk):
     L1 = [0.0, 0.0, 0.25, 1.0]
     L2 = [0.0, 0.0, 0.125, 0.5]
 
-    # ---------------- corpus (minimised regression inputs) first
-    corpus = [
-        # cold start whose clipped unconstrained solution is zero (NaN on the pinned tree: known finding)
-        dict(G=[[2.0]], B=[[-1.0]], X=[[0.0]], MU=[[1.0]]),
-        dict(G=[[2.0, 0.5], [0.5, 1.0]], B=[[-1.0], [-2.0]], X=[[0.0], [0.0]], MU=[[1.0], [2.0]]),
-    ]
-    problems = []
-    for c in corpus:
-        G = np.array(c["G"]); B = np.array(c["B"]); r, n = B.shape
-        U = np.linalg.cholesky(G).T
-        problems.append(dict(U=U, G=G, B=B, X=np.array(c["X"]), MU=np.array(c["MU"]), l1=0.0, l2=0.0, r=r, n=n, signed=True, style="corpus"))
+    # ---------------- corpus (minimised regression inputs: the former defects) first
+    problems, as_corpus = [], []
+    for c in load_corpus():
+        G = np.array(c["G"], dtype=float)
+        if c.get("kind") == "hals":
+            B = np.array(c["B"], dtype=float); r, n = B.shape
+            problems.append(dict(U=np.linalg.cholesky(G).T, G=G, B=B, X=np.array(c["X"], dtype=float), MU=np.array(c["MU"], dtype=float),
+                                 l1=0.0, l2=0.0, r=r, n=n, signed=True, style="corpus"))
+        elif c.get("kind") == "aset":
+            b = np.array(c["b"], dtype=float); r = len(b)
+            as_corpus.append((dict(U=np.linalg.cholesky(G).T, G=G, B=b.reshape(-1, 1), X=np.array(c["X"], dtype=float).reshape(-1, 1),
+                                   MU=np.array(c["MU"], dtype=float).reshape(-1, 1), l1=0.0, l2=0.0, r=r, n=1, signed=True, style="corpus"),
+                              np.array(c["x0"], dtype=float)))
+    chk.hist("corpus", len(problems) + len(as_corpus))
     for (r, n) in sizes(T["nprob"]):
         signed = rng.random() < 0.5
         problems.append(gen_problem(rng, r, n, signed, rng.choice(L1), rng.choice(L2)))
     for p in problems:
+        p["Xs"] = scipy_reference(p)
+    for p, _ in as_corpus:
         p["Xs"] = scipy_reference(p)
 
     # ---------------- A. converged runs: predicates + exact certificates (CConv)
@@ -304,17 +318,25 @@ def run(chk):
                            f"{C.q(eps)} {C.q(lr)} {mat_lit(V)} {mat_lit(p['X'])} {C.q(tstep)} {C.q(1e-6)} {C.q(1e-6 if eps == 0 else 1.0)})")
         return lit
 
+    for p, x0 in as_corpus:
+        as_point(chk, p, 0, x0, active_set_nnls, add_case, conv_case)
+        as_point(chk, p, 0, None, active_set_nnls, add_case, conv_case)
+
     for pi, p in enumerate(problems):
         r, n = p["r"], p["n"]
         plain = (p["l1"] == 0 and p["l2"] == 0)
+        kw = dict(sparsity_coefficient=p["l1"] if p["l1"] else None, ridge_coefficient=p["l2"] if p["l2"] else None)
         starts = [("cold", None), ("warm-" + (k := rng.choice(["dense", "sparse", "zero"])), dyadic_start(rng, r, n, k))]
         for sname, V0 in starts:
             eps = 0.0 if (pi % 5 or sname == "cold") else 2.0 ** -20
-            exact = (chk.tier == "thorough" and pi % 40 == 7)
-            st, V = C.call_impl(run_hals_converged, p, V0, eps, exact, timeout=120)
-            chk.count(key=("hals", r, n, p["signed"], p["style"], sname, p["l1"], p["l2"], eps), nontrivial=r * n > 1)
-            chk.hist("solver", "hals_nnls/" + sname.split("-")[0]); chk.hist("unknowns", r); chk.hist("rhs", n); chk.hist("style", p["style"])
+            exact = (chk.tier == "thorough" and pi % 40 == 7) or (chk.tier == "quick" and pi == 3)
             inp = inputs_json(p, V0=V0, epsilon=eps, exact=exact, protocol="run to convergence (continued calls, tol=0)")
+            try:
+                st, V = impl_call(chk, run_hals_converged, p, V0, eps, exact, timeout=180)
+            except Skip:
+                continue
+            chk.count(key=("hals", r, n, p["signed"], p["style"], sname, p["l1"], p["l2"], eps), nontrivial=r * n > 1)
+            chk.hist("solver", "hals_nnls/" + sname.split("-")[0] + ("/exact" if exact else "")); chk.hist("unknowns", r); chk.hist("rhs", n); chk.hist("style", p["style"])
             if st != "ok":
                 chk.finding(EP_HALS, inp, f"hals_nnls raised on a well-conditioned problem: {V}", "C13_hals_returns", observed=None)
                 continue
@@ -326,24 +348,53 @@ def run(chk):
             if pi < 3:
                 chk.sample({"solver": "hals_nnls", "start": sname, "UtU": p["G"].tolist(), "UtM": p["B"].tolist(),
                             "returned": np.asarray(V).tolist(), "constructed_optimum": p["X"].tolist()})
+            # the call as a user writes it (default n_iter_max / tol and their stopping rule): approximately optimal
+            if eps == 0.0:
+                inp_d = inputs_json(p, V0=V0, epsilon=0.0, call="default", protocol="single call with the default n_iter_max and tol")
+                try:
+                    st, V = impl_call(chk, lambda: quiet(hals_nnls, p["B"].copy(), p["G"].copy(), V=None if V0 is None else V0.copy(), **kw), timeout=180)
+                except Skip:
+                    continue
+                chk.count(key=("hals-default", r, n, p["style"], sname, p["l1"], p["l2"]), nontrivial=r * n > 1)
+                chk.hist("solver", "hals_nnls/default-call")
+                if st != "ok":
+                    chk.finding(EP_HALS, inp_d, f"hals_nnls raised on a well-conditioned problem: {V}", "C13_hals_returns", observed=None)
+                else:
+                    msg = check_point(p, V, 0.0, "hals_nnls(default n_iter_max, tol; " + sname + ")", tk=1e-3, to=1e-4)
+                    if msg:
+                        chk.finding(EP_HALS, inp_d, msg, "C13_kkt_optimal", observed=np.asarray(V))
         # fista (penalised as well) and active set (plain problems, column by column)
         if pi % 2 == 0 or chk.tier == "thorough":
             eps = 0.0 if pi % 3 else 1e-8
             x0 = None if pi % 4 else dyadic_start(rng, r, n, "dense")
             lr = None if pi % 3 else float(Fr(1) / Fr(float(np.linalg.norm(p["G"], 2) + 2 * p["l2"]) * 1.25))
-            st, V = C.call_impl(run_fista_converged, p, x0, eps, lr, timeout=120)
-            chk.count(key=("fista", r, n, p["signed"], p["style"], x0 is None, p["l1"], p["l2"], eps), nontrivial=r * n > 1)
-            chk.hist("solver", "fista")
             inp = inputs_json(p, x0=x0, epsilon=eps, lr=lr, protocol="run to convergence (restarted, tol=0)")
-            if st != "ok":
-                chk.finding(EP_FISTA, inp, f"fista raised: {V}", "C13_fista_returns")
-            else:
-                msg = check_point(p, V, eps, "fista")
-                if msg:
-                    chk.finding(EP_FISTA, inp, msg, "C13_kkt_optimal", observed=np.asarray(V))
+            try:
+                st, V = impl_call(chk, run_fista_converged, p, x0, eps, lr, timeout=180)
+                chk.count(key=("fista", r, n, p["signed"], p["style"], x0 is None, p["l1"], p["l2"], eps), nontrivial=r * n > 1)
+                chk.hist("solver", "fista")
+                if st != "ok":
+                    chk.finding(EP_FISTA, inp, f"fista raised: {V}", "C13_fista_returns")
                 else:
-                    lrq = lr if lr is not None else 1.0 / (float(np.linalg.norm(p["G"], 2)) + 2 * p["l2"])
-                    add_case(conv_case(p, V, 1, eps, lrq, 1e-9), ("conv-fista", pi, "x", r, n))
+                    msg = check_point(p, V, eps, "fista")
+                    if msg:
+                        chk.finding(EP_FISTA, inp, msg, "C13_kkt_optimal", observed=np.asarray(V))
+                    else:
+                        lrq = lr if lr is not None else 1.0 / (float(np.linalg.norm(p["G"], 2)) + 2 * p["l2"])
+                        add_case(conv_case(p, V, 1, eps, lrq, 1e-9), ("conv-fista", pi, "x", r, n))
+                # the default call (n_iter_max=100, tol=1e-8, lr from the leading singular value): approximately optimal
+                inp_d = inputs_json(p, x0=None, epsilon=0.0, lr=None, call="default", protocol="single call with the default n_iter_max, tol and lr")
+                st, V = impl_call(chk, lambda: fista(p["B"].copy(), p["G"].copy(), sparsity_coef=p["l1"], ridge_coef=p["l2"], epsilon=0.0), timeout=180)
+                chk.count(key=("fista-default", r, n, p["style"], p["l1"], p["l2"]), nontrivial=r * n > 1)
+                chk.hist("solver", "fista/default-call")
+                if st != "ok":
+                    chk.finding(EP_FISTA, inp_d, f"fista raised: {V}", "C13_fista_returns")
+                else:
+                    msg = check_point(p, V, 0.0, "fista(default n_iter_max, tol, lr)", tk=1e-2, to=1e-4)
+                    if msg:
+                        chk.finding(EP_FISTA, inp_d, msg, "C13_kkt_optimal", observed=np.asarray(V))
+            except Skip:
+                pass
         if plain:
             for j in range(n):
                 as_point(chk, p, j, None, active_set_nnls, add_case, conv_case)
@@ -352,7 +403,7 @@ def run(chk):
                 if x0.max() > 0:
                     as_point(chk, p, j, x0, active_set_nnls, add_case, conv_case)
 
-    # ---------------- A'. active set on random warm-started problems (the input class with the rounding defect)
+    # ---------------- A'. active set on random warm-started problems (the input class of the former rounding defect)
     for t in range(T["aswarm"]):
         r = rng.randint(2, 8)
         p = gen_problem(rng, r, 1, rng.random() < 0.5, 0.0, 0.0, style="mixed")
@@ -365,7 +416,7 @@ def run(chk):
     for t, (r, n) in enumerate(sizes(T["npass"])):
         signed = rng.random() < 0.5
         l1 = rng.choice([None, None, 0.25, 1.0, 0.0]); l2 = rng.choice([None, None, 0.125, 0.5])
-        p = gen_problem(rng, r, n, signed, l1 or 0.0, l2 or 0.0)
+        p = gen_problem(rng, r, n, signed, l1 or 0.0, l2 or 0.0, style=rng.choice([None, None, "all_active"]))
         G, B = p["G"].copy(), p["B"]
         kind = rng.choice(["dense", "sparse", "zero", "infeasible", "cold", "cold"])
         eps = rng.choice([0.0, 0.0, 0.0, 2.0 ** -10, 0.5])
@@ -377,11 +428,19 @@ def run(chk):
         iters = rng.choice([1, 1, 2, 3])
         tol = rng.choice([0.0, 0.0, 0.5])
         V0 = None if kind == "cold" else dyadic_start(rng, r, n, kind)
-        sol = np.zeros((r, n))
-        if V0 is None:
-            sol = np.linalg.solve(G, B)       # the recorded answer of tl.solve (same LAPACK routine, same input)
-        st, V = C.call_impl(lambda: quiet(hals_nnls, B.copy(), G.copy(), V=None if V0 is None else V0.copy(), n_iter_max=iters, tol=tol,
-                                          sparsity_coefficient=l1, ridge_coefficient=l2, nonzero_rows=nz, epsilon=eps))
+        sol = np.zeros((r, n)); impl0 = np.zeros((r, n))
+        kw = dict(sparsity_coefficient=l1, ridge_coefficient=l2, nonzero_rows=nz, epsilon=eps)
+        try:
+            if V0 is None:
+                sol = np.linalg.solve(G, B)       # the recorded answer of tl.solve (same LAPACK routine, same input)
+                st0, impl0 = impl_call(chk, lambda: quiet(hals_nnls, B.copy(), G.copy(), V=None, n_iter_max=0, tol=tol, **kw))
+                if st0 != "ok" or not finite(impl0):
+                    chk.finding(EP_HALS, inputs_json(p, V0=None, n_iter_max=0), f"hals_nnls cold start is not a finite matrix: {impl0}", "C13_hals_returns",
+                                observed=impl0 if st0 == "ok" else None)
+                    continue
+            st, V = impl_call(chk, lambda: quiet(hals_nnls, B.copy(), G.copy(), V=None if V0 is None else V0.copy(), n_iter_max=iters, tol=tol, **kw))
+        except Skip:
+            continue
         if st == "ok":
             impl = f"(Ok (Some {mat_lit(V)}))" if finite(V) else "(Ok None)"
         elif st == "reject":
@@ -391,10 +450,13 @@ def run(chk):
             continue
         o = f"(mkH {optq(l1)} {optq(l2)} {C.boolc(nz)} {C.q(eps)} {C.q(MEPS)})"
         v0 = "None" if V0 is None else f"(Some {mat_lit(V0)})"
-        add_case(lambda cid: f"(CHals {cid}%nat {mat_lit(B)} {mat_lit(G)} {n}%nat {v0} {mat_lit(sol)} {iters}%nat {C.q(tol)} {o} {impl})",
+        add_case(lambda cid: f"(CHals {cid}%nat {mat_lit(B)} {mat_lit(G)} {n}%nat {v0} {mat_lit(sol)} {iters}%nat {C.q(tol)} {o} {mat_lit(impl0)} {impl})",
                  ("pass-hals", kind, r, n, l1, l2, eps, nz, iters, st))
         chk.count(key=("hals-pass", r, n, kind, l1, l2, eps, nz, iters), nontrivial=r * n > 1)
         chk.hist("hals_pass_start", kind); chk.hist("hals_pass_outcome", "raised" if st != "ok" else ("nan" if not finite(V) else "ok"))
+        if st == "ok" and not finite(V):
+            chk.finding(EP_HALS, inputs_json(p, V0=V0, epsilon=eps, n_iter_max=iters), "hals_nnls returned non-finite entries on a well-conditioned problem",
+                        "C13_hals_returns", observed=V)
         # predicate (theorem (i)): every updated row is >= eps after at least one pass
         if st == "ok" and finite(V):
             upd = [k for k in range(r) if G[k, k] != 0]
@@ -406,52 +468,58 @@ def run(chk):
     for t, (r, n) in enumerate(sizes(T["nfista"])):
         p = gen_problem(rng, r, n, rng.random() < 0.5, rng.choice(L1), rng.choice(L2))
         G, B = p["G"], p["B"]
-        K = rng.choice([1, 2, 3, 4])
+        K = rng.choice([1, 2, 3, 4, 4])
         nonneg = rng.random() < 0.85
         eps = rng.choice([0.0, 1e-8, 0.25])
         tol = rng.choice([0.0, 0.0, 0.5])
-        lr = float(Fr(1) / Fr(float(np.linalg.norm(G, 2) + 2 * p["l2"]))) if rng.random() < 0.7 else rng.choice([0.125, 0.03125])
+        u = rng.random()
+        # lr=None: the code takes 1 / (leading singular value of UtU + 2 ridge); the model receives the same quantity computed
+        # from numpy's independent 2-norm (recorded LAPACK answer)
+        lr_arg = None if u < 0.4 else (float(Fr(1) / Fr(float(np.linalg.norm(G, 2) + 2 * p["l2"]))) if u < 0.8 else rng.choice([0.125, 0.03125]))
+        lr = lr_arg if lr_arg is not None else 1.0 / (float(np.linalg.norm(G, 2)) + 2 * p["l2"])
         x0 = None if rng.random() < 0.4 else dyadic_start(rng, r, n, rng.choice(["dense", "sparse", "infeasible"]))
-        st, V = C.call_impl(lambda: fista(B.copy(), G.copy(), x=None if x0 is None else x0.copy(), n_iter_max=K, non_negative=nonneg,
-                                          sparsity_coef=p["l1"], ridge_coef=p["l2"], lr=lr, tol=tol, epsilon=eps))
-        if st != "ok" or not finite(V):
-            chk.finding(EP_FISTA, inputs_json(p, x0=x0, lr=lr), f"fista failed: {V}", "C13_fista_returns")
+        try:
+            st, V = impl_call(chk, lambda: fista(B.copy(), G.copy(), x=None if x0 is None else x0.copy(), n_iter_max=K, non_negative=nonneg,
+                                                 sparsity_coef=p["l1"], ridge_coef=p["l2"], lr=lr_arg, tol=tol, epsilon=eps))
+        except Skip:
             continue
-        betas, mo = [], 1.0
-        for _ in range(K):
-            m = (1 + math.sqrt(1 + 4 * mo ** 2)) / 2
-            betas.append((mo - 1) / m); mo = m
+        if st != "ok" or not finite(V):
+            chk.finding(EP_FISTA, inputs_json(p, x0=x0, lr=lr_arg, epsilon=eps, n_iter_max=K), f"fista failed: {V}", "C13_fista_returns")
+            continue
+        betas = fista_betas(K)
         x0m = np.zeros((r, n)) if x0 is None else x0
         add_case(lambda cid: (f"(CFista {cid}%nat {mat_lit(B)} {mat_lit(G)} {n}%nat {C.boolc(nonneg)} {C.q(p['l1'])} {C.q(p['l2'])} {C.q(lr)} "
                               f"{C.q(tol)} {C.q(eps)} {mat_lit(x0m)} {C.q_list(betas)} {mat_lit(V)})"),
-                 ("iter-fista", r, n, K, nonneg, eps))
-        chk.count(key=("fista-iter", r, n, K, nonneg, eps, x0 is None), nontrivial=r * n > 1)
+                 ("iter-fista", r, n, K, nonneg, eps, "lr=None" if lr_arg is None else lr_arg))
+        chk.count(key=("fista-iter", r, n, K, nonneg, eps, x0 is None, lr_arg is None), nontrivial=r * n > 1)
+        chk.hist("fista_lr", "default (from the singular value)" if lr_arg is None else "given")
         if nonneg and float(np.min(V)) < eps:
-            chk.finding(EP_FISTA, inputs_json(p, x0=x0, lr=lr, epsilon=eps, n_iter_max=K), f"iterate below epsilon: {float(np.min(V))}",
+            chk.finding(EP_FISTA, inputs_json(p, x0=x0, lr=lr_arg, epsilon=eps, n_iter_max=K), f"iterate below epsilon: {float(np.min(V))}",
                         "C13_fista_iterates_ge_eps", observed=V)
 
     # ---------------- D. active set: model (exact elimination, exact step) vs implementation
+    as_inputs = [(p, x0, 100) for p, x0 in as_corpus]
     for t in range(T["nas"]):
         r = rng.randint(1, 8)
         p = gen_problem(rng, r, 1, rng.random() < 0.5, 0.0, 0.0)
-        b, G = p["B"][:, 0], p["G"]
-        warm = rng.random() < 0.6
         x0 = None
-        if warm:
+        if rng.random() < 0.6:
             x0 = dyadic_start(rng, r, 1, rng.choice(["dense", "sparse"]))[:, 0]
             if x0.max() <= 0:
                 x0 = None
-        iters = rng.choice([1, 2, 100, 100])
-        st, x = C.call_impl(lambda: active_set_nnls(b.copy(), G.copy(), x=None if x0 is None else x0.copy(), n_iter_max=iters))
-        xf, residue = as_transcript(b, G, x0, iters, 10e-8, float)
-        chk.hist("active_set_rounding_residue", residue)
-        if residue:
-            continue   # float rounding decides the path (known finding, see section A'): not comparable with exact arithmetic
+        as_inputs.append((p, x0, rng.choice([1, 2, 100, 100])))
+    for p, x0, iters in as_inputs:
+        b, G, r = p["B"][:, 0], p["G"], p["r"]
+        try:
+            st, x = impl_call(chk, lambda: active_set_nnls(b.copy(), G.copy(), x=None if x0 is None else x0.copy(), n_iter_max=iters))
+        except Skip:
+            continue
         impl = f"(Some {vec_lit(x)})" if st == "ok" and finite(x) else "None"
         x0l = "None" if x0 is None else f"(Some {vec_lit(x0)})"
         add_case(lambda cid: f"(CAset {cid}%nat {vec_lit(b)} {mat_lit(G)} {x0l} {iters}%nat {C.q(10e-8)} {impl})",
-                 ("aset", r, warm, iters, st))
-        chk.count(key=("aset", r, warm, iters, p["style"], p["signed"]), nontrivial=r > 1)
+                 ("aset", r, x0 is not None, iters, st, p["style"]))
+        chk.count(key=("aset", r, x0 is not None, iters, p["style"], p["signed"]), nontrivial=r > 1)
+        chk.hist("active_set_model_vs_impl", ("warm" if x0 is not None else "cold") + f"/n_iter_max={iters}")
 
     # ---------------- E. ADMM with n_const=None
     for t in range(T["nadmm"]):
@@ -463,7 +531,11 @@ def run(chk):
             if np.linalg.cond(G) > 100:
                 G = p["G"]
         x = dyadic_start(rng, m, r, "dense"); dual = dyadic_start(rng, m, r, "sparse")
-        st, out = C.call_impl(lambda: admm(UtM.copy(), G.copy(), x.copy(), dual.copy(), n_const=None, n_iter_max=rng.choice([1, 100])))
+        nit = rng.choice([1, 100])
+        try:
+            st, out = impl_call(chk, lambda: admm(UtM.copy(), G.copy(), x.copy(), dual.copy(), n_const=None, n_iter_max=nit))
+        except Skip:
+            continue
         inp = {"UtM": UtM, "UtU": G, "x": x, "dual_var": dual}
         if st != "ok":
             chk.finding(EP_ADMM, inp, f"admm(n_const=None) failed: {out}", "C13_admm_returns")
@@ -482,33 +554,37 @@ def run(chk):
                  ("admm", r, m))
 
     # ---------------- evaluate the correspondence inside Coq
-    failing, n_eval, broken = C.run_case_shards("C13", HEADER, "case", cases, shard=24 if chk.tier == "quick" else 60)
+    failing, n_eval, broken = C.run_case_shards("C13", HEADER, "case", cases, shard=20 if chk.tier == "quick" else 30, timeout=3000)
     chk.checker_cmds.append("coqc (vm_compute) on generated build/cases/C13/*.v: Corr.C13.failing")
     chk.cov["traces_validated_against_impl"] = n_eval
     chk.cov["exhaustive"] = False
     chk.cov["rule"] = ("problems constructed from a chosen KKT pair (x*, mu*) over dyadic rationals (exact optimum known): every size 1-8 unknowns x 1-5 right-hand sides, "
                        "signed and non-negative designs with cond(UtU) <= 100, optimum styles mixed / interior / all-active / degenerate, l1 in {0, .25, 1}, ridge in {0, .125, .5}; "
-                       "solvers run to convergence from cold and warm (dense / sparse / zero) starts -> predicates + exact certificates (CConv); "
-                       "1-3 HALS passes and 1-4 FISTA iterations from dense / sparse / zero / infeasible / cold starts with epsilon, nonzero_rows, zero diagonals -> model vs implementation; "
-                       "active set cold / warm vs the exact model; ADMM(n_const=None) vs the model with exact elimination. non-trivial = more than one unknown*rhs; "
-                       "distinct key = (solver, size, design sign, optimum style, start, coefficients, epsilon)")
+                       "corpus of the former defects first; solvers run to convergence from cold and warm (dense / sparse / zero) starts -> predicates + exact certificates (CConv); "
+                       "single calls with the default n_iter_max / tol / lr -> approximately optimal (looser tolerance); "
+                       "1-3 HALS passes and 1-4 FISTA iterations (given and default step) from dense / sparse / zero / infeasible / cold starts with epsilon, nonzero_rows, zero diagonals -> model vs implementation; "
+                       "the cold start of hals_nnls (n_iter_max=0) vs the model's hals_init; active set cold / warm vs the exact model; ADMM(n_const=None) vs the model with exact elimination. "
+                       "non-trivial = more than one unknown*rhs; distinct key = (solver, size, design sign, optimum style, start, coefficients, epsilon)")
     for b_ in broken:
         chk.broken.append({"what": "correspondence corr:C13 shard not evaluated", "detail": b_})
     for i in sorted(failing):
         chk.disagreement("corr:C13 (Model/Nnls.v vs tensorly/solvers/nnls.py, admm.py)", {"case": list(map(str, meta[i]))})
     chk.assumptions = ["tl.solve / numpy.linalg.solve answers satisfy their contract on the generated well-conditioned systems (checked: the exact elimination of the model agrees to 1e-7)",
                        "float64 arithmetic of the implementation is within 1e-9 (relative) of exact arithmetic on 1-4 iterations of these well-conditioned problems",
-                       "'run to convergence' is a limit statement: proved are monotone descent + fixed point => KKT => optimal; that the returned point is an approximate fixed point is measured (CConv)"]
+                       "'run to convergence' is a limit statement: proved are monotone descent + fixed point <=> KKT => optimal; that the returned point is an approximate fixed point is measured (CConv)"]
     chk.trusted = ["scipy.optimize.nnls as independent reference (objective value only)",
-                   "the sqrt-defined FISTA momentum sequence and the leading singular value enter the model as recorded data",
-                   "NaN / inf are modelled as the single outcome `None` of hals_init (division by an exactly zero denominator)"]
+                   "the sqrt-defined FISTA momentum sequence and the leading singular value (numpy 2-norm) enter the model as recorded data",
+                   "the number of passes / iterations taken before the stopping rule fires is not compared (any prefix iterate of the model is accepted)"]
     return chk.finish(CLASSIFIERS)
 
 
 def as_point(chk, p, j, x0, active_set_nnls, add_case, conv_case, light=False):
     """active_set_nnls on column j: predicate; exact certificate when it holds"""
     b, G = p["B"][:, j], p["G"]
-    st, x = C.call_impl(lambda: active_set_nnls(b.copy(), G.copy(), x=None if x0 is None else x0.copy()))
+    try:
+        st, x = impl_call(chk, lambda: active_set_nnls(b.copy(), G.copy(), x=None if x0 is None else x0.copy()))
+    except Skip:
+        return
     r = p["r"]
     chk.count(key=("active_set", r, p["signed"], p["style"], x0 is None, None if x0 is None else int((x0 > 0).sum())), nontrivial=r > 1)
     chk.hist("solver", "active_set_nnls/" + ("cold" if x0 is None else "warm"))
@@ -553,21 +629,29 @@ def replay(payload):
     p = dict(U=np.linalg.cholesky(G).T, G=G, B=B, l1=l1, l2=l2, r=r, n=n, MU=np.zeros((r, n)))
     p["Xs"] = scipy_reference(p); p["X"] = p["Xs"]
     eps = float(inp.get("epsilon", 0.0))
+    default = inp.get("call") == "default"
+    pred = payload.get("predicate")
     if ep == EP_AS:
         st, x = C.call_impl(lambda: active_set_nnls(b.copy(), G.copy(), x=None if x0 is None else x0.copy()))
         msg = f"raised {x}" if st != "ok" else check_point(p, np.asarray(x).reshape(-1, 1), 0.0, "active_set_nnls")
     elif ep == EP_FISTA:
-        if payload.get("predicate") in ("C13_fista_iterates_ge_eps", "C13_fista_returns"):
+        if pred in ("C13_fista_iterates_ge_eps", "C13_fista_returns") and not default:
             st, V = C.call_impl(lambda: fista(B.copy(), G.copy(), x=arr(inp.get("x0")), n_iter_max=int(inp.get("n_iter_max", 4)), sparsity_coef=l1, ridge_coef=l2, lr=inp.get("lr"), tol=0, epsilon=eps))
             msg = f"failed {V}" if st != "ok" or not finite(V) else (f"below epsilon {np.min(V)}" if np.min(V) < eps else None)
+        elif default:
+            st, V = C.call_impl(lambda: fista(B.copy(), G.copy(), sparsity_coef=l1, ridge_coef=l2, epsilon=0.0), timeout=120)
+            msg = f"raised {V}" if st != "ok" else check_point(p, V, 0.0, "fista(default)", tk=1e-2, to=1e-4)
         else:
             st, V = C.call_impl(run_fista_converged, p, arr(inp.get("x0")), eps, inp.get("lr"), timeout=120)
             msg = f"raised {V}" if st != "ok" else check_point(p, V, eps, "fista")
     else:
-        if payload.get("predicate") == "C13_hals_iterates_ge_eps":
-            st, V = C.call_impl(lambda: quiet(hals_nnls, B.copy(), G.copy(), V=arr(inp.get("V0")), n_iter_max=int(inp.get("n_iter_max", 1)), tol=0,
-                                              sparsity_coefficient=l1 or None, ridge_coefficient=l2 or None, epsilon=eps))
-            msg = f"failed {V}" if st != "ok" else (f"below epsilon {np.min(V)}" if not finite(V) or np.min(V) < eps else None)
+        kw = dict(sparsity_coefficient=l1 or None, ridge_coefficient=l2 or None)
+        if pred in ("C13_hals_iterates_ge_eps", "C13_hals_returns") and not default and "n_iter_max" in inp:
+            st, V = C.call_impl(lambda: quiet(hals_nnls, B.copy(), G.copy(), V=arr(inp.get("V0")), n_iter_max=int(inp.get("n_iter_max", 1)), tol=0, epsilon=eps, **kw))
+            msg = f"failed {V}" if st != "ok" else (f"non-finite or below epsilon {np.min(V)}" if not finite(V) or (int(inp.get("n_iter_max", 1)) > 0 and np.min(V) < eps) else None)
+        elif default:
+            st, V = C.call_impl(lambda: quiet(hals_nnls, B.copy(), G.copy(), V=arr(inp.get("V0")), **kw), timeout=120)
+            msg = f"raised {V}" if st != "ok" else check_point(p, V, 0.0, "hals_nnls(default)", tk=1e-3, to=1e-4)
         else:
             st, V = C.call_impl(run_hals_converged, p, arr(inp.get("V0")), eps, bool(inp.get("exact", False)), timeout=120)
             msg = f"raised {V}" if st != "ok" else check_point(p, V, eps, "hals_nnls")
